@@ -15,12 +15,15 @@ def standin(*props: str):
     return deco
 
 
+MODULES = ["keyspace", "bsprog", "tablecheck", "parsecheck", "cfgcheck", "relational", "outputs"]
+IMPORT_ERRORS: Dict[str, str] = {}
+
+
 def for_property(pid: str) -> List[Callable[..., Dict[str, Any]]]:
-    import bounded.keyspace  # noqa: F401
-    import bounded.bsprog  # noqa: F401
-    import bounded.outputs  # noqa: F401
-    import bounded.cfgcheck  # noqa: F401
-    import bounded.relational  # noqa: F401
-    import bounded.tablecheck  # noqa: F401
-    import bounded.parsecheck  # noqa: F401
+    import importlib
+    for m in MODULES:
+        try:
+            importlib.import_module(f"bounded.{m}")
+        except Exception as e:  # a broken stand-in module must not take the others down; it is reported by the CLI
+            IMPORT_ERRORS[m] = f"{type(e).__name__}: {e}"
     return _REG.get(pid, [])
